@@ -1,7 +1,8 @@
 #!/bin/bash
 # dev tool: every stored seed, applied to a SCRATCH COPY of /repo (never to /repo itself), checked with its property's check.
 # usage: tools/run_seeds.sh [seed-prefix]      -> one line per seed on stdout
-cd /verif
+cd "$(dirname "$(readlink -f "$0")")/.."
+ROOT=$(pwd)
 W=${SEEDW:-/var/tmp/walrus-seedrun2}
 mkdir -p $W/out
 rsync -a --delete --exclude target /repo/ $W/repo/
@@ -10,7 +11,7 @@ for d in seeded/*/; do
   s=$(basename $d); p=${s%-*}
   [ -n "$1" ] && [[ "$s" != $1* ]] && continue
   git -C $W/repo checkout -q -- . 
-  if ! git -C $W/repo apply /verif/seeded/$s/patch.diff 2>/dev/null; then echo "$s APPLY-FAILED"; continue; fi
+  if ! git -C $W/repo apply $ROOT/seeded/$s/patch.diff 2>/dev/null; then echo "$s APPLY-FAILED"; continue; fi
   out=$(./check $p 2>&1); rc=$?
   n=$(echo "$out" | grep -c "^VIOLATION")
   first=$(echo "$out" | grep "^VIOLATION" | head -1 | sed 's/.*obligation=//' | cut -c1-90)
